@@ -1,2 +1,101 @@
+"""C16: the timestamp lock builders accept exactly their documented window (lemma mode)."""
+import os
+import random
+import sys
+
+ROOT = os.path.dirname(os.path.dirname(os.path.abspath(__file__)))
+sys.path.insert(0, ROOT)
+sys.path.insert(0, os.environ.get('VERIF_REPO', '/repo'))
+from props import templates as T   # noqa: E402
+from props.lemutil import push_var, verdict_bool   # noqa: E402
+
+
+def _ob(name, ok, info=None, backend='native'):
+    return {'name': name, 'kind': 'template', 'status': 'discharged' if ok else 'failed', 'backend': backend,
+            'time_s': 0.0, 'path': '', 'info': info or {}, 'inputs': None}
+
+
+def validate_templates(seed, n):
+    """translation validation (bounded): real builder output == template, on seeded samples"""
+    import tapescript as ts
+    from tapescript.functions import int_to_bytes
+    rnd = random.Random(seed)
+    vals = [0, 1, 127, 128, 255, 256, 32767, 32768, 2**31 - 1, 2**31, 2**32, 2**63 - 1, 2**63, 2**64] + \
+        [rnd.getrandbits(rnd.randrange(1, 70)) for _ in range(n)]
+    bad = None
+    cnt = 0
+    for v in vals:
+        for verify in (False, True):
+            cnt += 3
+            e = int_to_bytes(v)
+            if ts.make_timestamp_after_lock(v, verify).bytes != T.t_timestamp_after(e, verify) and bad is None:
+                bad = ('after', v, verify)
+            if ts.make_timestamp_before_lock(v, verify).bytes != T.t_timestamp_before(e, verify) and bad is None:
+                bad = ('before', v, verify)
+            w = vals[(vals.index(v) + 3) % len(vals)]
+            if ts.make_timestamp_between_lock(v, w, verify).bytes != T.t_timestamp_between(e, int_to_bytes(w), verify) \
+                    and bad is None:
+                bad = ('between', v, w, verify)
+    return _ob('templates/C16/timestamp-locks', bad is None, {'failing': repr(bad)}), cnt
+
+
 def c16_locks(tier='quick', seed=0):
-    return {}
+    import z3
+    from pyvc import driver, lemma
+    from pyvc.sym import zint, mkbytes, sym_bytes
+    src, reg = driver._init()
+    F = src.live['functions']
+    obs = []
+    tv, cnt = validate_templates(seed, 30 if tier == 'quick' else 2000)
+    obs.append(tv)
+
+    def mk_lemma(kind):
+        def build(ip, mk):
+            ctx = ip.ctx
+            ts = mk.int('ts', lo=0)
+            t = mk.int('t')
+            e = ip.call(F.int_to_bytes, [ts], {})
+            ctx.assume(z3.Length(e.e) <= 255)        # timestamps below 2**2032
+            enc = push_var(ip, e, 'ts')
+            if kind == 'after':
+                lock = mkbytes([enc, T.op('OP_CHECK_TIMESTAMP')])
+            elif kind == 'before':
+                lock = mkbytes([enc, T.op('OP_CHECK_TIMESTAMP'), T.op('OP_NOT')])
+            else:
+                ts2 = mk.int('ts_end', lo=0)
+                e2 = ip.call(F.int_to_bytes, [ts2], {})
+                ctx.assume(z3.Length(e2.e) <= 255)
+                enc2 = push_var(ip, e2, 'ts_end')
+                lock = mkbytes([enc, T.op('OP_CHECK_TIMESTAMP_VERIFY'), enc2, T.op('OP_CHECK_TIMESTAMP'),
+                                T.op('OP_NOT')])
+            verdict = verdict_bool(ip, ip.call(F.run_auth_scripts, [[lock], {'timestamp': t}], {}))
+            now = ctx.ghost.get('now')
+            slack = (t - now < 60) if now is not None else z3.BoolVal(True)     # default ts_threshold
+            if kind == 'after':
+                ctx.oblige('after-lock-window', verdict == z3.And(t >= ts, slack), 'lemma')
+            elif kind == 'before':
+                # exact statement of the property (t < ts at every value): known finding D14
+                ctx.oblige('before-lock-window', verdict == (t < ts), 'lemma')
+                # ... and on the complement of the recorded region (timestamps not ahead of the clock by
+                # the slack threshold or more) the lock is exact
+                ctx.oblige('before-lock-window-within-slack', z3.Implies(slack, verdict == (t < ts)), 'lemma')
+            else:
+                ctx.oblige('between-lock-window', verdict == z3.And(t >= ts, t < ts2, slack), 'lemma')
+        return build
+    summary = {}
+    for kind in ('after', 'before', 'between'):
+        r = lemma.run_lemma(src, reg, f'C16/{kind}-lock', mk_lemma(kind))
+        summary[kind] = {'paths': r['paths'], 'obligations': len(r['obligations']), 'time_s': r['time_s'],
+                         'undecided': r['undecided'], 'error': r['error']}
+        obs.extend(o for o in r['obligations'] if '-lock-window' in o['name'])
+        if r['undecided'] or r['error']:
+            return {'obligations': obs, 'undecided': [(f'lemma C16/{kind}', r['undecided'] or r['error'])],
+                    'summary': summary}
+    return {'obligations': obs, 'summary': summary,
+            'bounded': {'what': 'builder output == byte template (translation validation of the compile step)',
+                        'bound': f'{cnt} builder calls on boundary and seeded timestamps'}}
+
+
+if __name__ == '__main__':
+    import json
+    print(json.dumps(c16_locks(), indent=1, default=str)[:6000])
